@@ -267,6 +267,7 @@ def c17(tier, seed):
         ("cat_x_catdate", [cat("A", 2), cat("B", 3, miss=[3], date=True)]),
         ("mr_x_cat", [mr("A", 2), cat("B", 2)]),
         ("mr_x_catdate", [mr("A", 2), cat("B", 2, date=True)]),
+        ("catdate_x_catdate", [cat("A", 2, date=True), cat("B", 3, miss=[2], date=True)]),
         ("cat_1d", [cat("A", 3, miss=[2])]),
         ("catdate_1d", [cat("A", 3, date=True)]),
         ("mr_1d", [mr("A", 2)]),
@@ -417,6 +418,19 @@ def c08(tier, seed):
                                    order={"type": "opposing_element", "measure": meas,
                                           "eid": cvalid[0]}),
                     configs.dimcfg()))
+        if cd is not None and rd["kind"] == "cat" and cd["kind"] == "cat":
+            rvalid = [x for p, x in enumerate(rd["ids"], 1) if p not in rd["miss"]]
+            cvalid = [x for p, x in enumerate(cd["ids"], 1) if p not in cd["miss"]]
+            if len(rvalid) >= 2 and len(cvalid) >= 3:
+                for meas in ("count_weighted", "col_percent", "row_percent"):
+                    s["configs"].append(configs.config(
+                        configs.dimcfg(vins=[configs.insertion("RS", "bottom", rvalid[:2], id=51),
+                                             configs.insertion("RT", "top", rvalid[-1:], id=52)]),
+                        configs.dimcfg(vins=[configs.insertion("CS1", "top", cvalid[:2], id=61),
+                                             configs.insertion("CS2", "bottom", cvalid[1:], id=62),
+                                             configs.insertion("CS3", "bottom", cvalid[-1:], id=63)],
+                                       order={"type": "opposing_insertion", "measure": meas,
+                                              "iid": 51})))
         configs.assign_label_ranks(s)
         scns.append(s)
     return dict(
@@ -556,6 +570,7 @@ def c10(tier, seed):
         scenario("cat_x_cat_y", [cat("A", 3), cat("B", 3, miss=[2])], **y),
         scenario("cat_x_mr_y", [cat("A", 2), mr("B", 2)], **y),
         scenario("cat_x_cat.u", [cat("A", 3), cat("B", 2)], weighted=False),
+        scenario("cat_x_cat_snan", [cat("A", 3), cat("B", 3)], **dict(y, sum_nan=True)),
     ]
     scns = []
     for i, s in enumerate(base):
@@ -635,6 +650,65 @@ def c13(tier, seed):
     )
 
 
+def c06(tier, seed):
+    import time
+    import runner
+    from scenarios import cat, mr, caitems, cacat, scenario
+    y = dict(yvals=(0, 1, 3), ymeasures=("mean", "sum"), valid_counts=True)
+    scns = [
+        scenario("cat_x_cat_x_cat", [cat("T", 3, miss=[2]), cat("A", 2), cat("B", 3, miss=[3])]),
+        scenario("cat_x_cat_x_cat.sq", [cat("T", 3, miss=[1]), cat("A", 3), cat("B", 3)]),
+        scenario("cat_x_cat_x_cat.tml", [cat("T", 3, miss=[3]), cat("A", 2), cat("B", 2)]),
+        scenario("mr_x_cat_x_cat", [mr("T", 2), cat("A", 2), cat("B", 2)]),
+        scenario("mr_x_mr_x_cat", [mr("T", 2), mr("A", 2), cat("B", 2)]),
+        scenario("mr_x_cat_x_mr", [mr("T", 2), cat("A", 2), mr("B", 2)]),
+        scenario("mr_x_mr_x_mr", [mr("T", 2), mr("A", 2), mr("B", 2)]),
+        scenario("cat_x_mr_x_cat", [cat("T", 3, miss=[1]), mr("A", 2), cat("B", 2)]),
+        scenario("cat_x_cat_x_mr", [cat("T", 3, miss=[2]), cat("A", 2), mr("B", 2)]),
+        scenario("cat_x_mr_x_mr", [cat("T", 2), mr("A", 2), mr("B", 2)]),
+        scenario("casub_x_cacat_x_cat", [caitems("A", 2), cacat("A", 3, miss=[2]), cat("B", 2)]),
+        scenario("casub_x_cacat_x_mr", [caitems("A", 2), cacat("A", 2), mr("B", 2)]),
+        scenario("cat_x_casub_x_cacat", [cat("T", 3, miss=[2]), caitems("A", 2), cacat("A", 2)]),
+        scenario("mr_x_casub_x_cacat", [mr("T", 2), caitems("A", 2), cacat("A", 2)]),
+        scenario("cacat_x_mr_x_casub", [cacat("A", 3, miss=[2]), mr("B", 2), caitems("A", 2)]),
+        scenario("cacat_x_cat_x_casub", [cacat("A", 3, miss=[1]), cat("B", 2), caitems("A", 2)]),
+        scenario("catdate_x_cat_x_cat", [cat("T", 2, date=True), cat("A", 2), cat("B", 2)]),
+        scenario("cat_x_cat_x_cat_y", [cat("T", 3, miss=[2]), cat("A", 2), cat("B", 2)], **y),
+        scenario("mr_x_cat_x_cat_y", [mr("T", 2), cat("A", 2), cat("B", 2)], **y),
+        scenario("cat_x_cat_x_cat.u", [cat("T", 2), cat("A", 2), cat("B", 2)], weighted=False),
+    ]
+    jobs = _value_jobs("C06", "c06", scns, tier, seed, check_table_name=True,
+                       bfs_budget=220 if tier == "quick" else 30000,
+                       sim_budget=160 if tier == "quick" else 20000)
+
+    def custom(tier_, seed_, t0):
+        import multicube
+        from runner import Mismatch
+        results = runner.run_jobs(jobs)
+        problems, evals, gen, err = multicube.run_multicube(tier_, seed_)
+        mc = {"scn": "multicube", "mode": "sim", "records": 0, "distinct": evals,
+              "tlc_distinct": 0, "generated": gen, "evaluations": evals, "nontrivial": evals,
+              "features": {"multicube_comparisons": evals}, "samples": [],
+              "mismatches": [{"mismatch": Mismatch("C06", None, text, {}, tags=tags).to_dict(),
+                              "record": {}, "job": {"scn": {"name": "multicube"}}}
+                             for text, tags in problems[:40]],
+              "error": err, "wall_s": 0}
+        return runner.finish(
+            "C06", tier_, seed_, "model_checking", results + [mc], t0,
+            rule="3-D responses with every table-dimension type (categorical with the missing "
+                 "category first / middle / last, categorical-date, MR, CA items, CA categories) "
+                 "over every rows x columns pairing x TLC-enumerated bags: every partition's "
+                 "counts, bases, margins, proportions, errors, residuals, column index and "
+                 "table_name against the respondent-level meaning restricted to the table "
+                 "element; plus CubeSet families (tabbook, CA-as-0th, numeric-measure rows as "
+                 "dict and as JSON text) built from spec-emitted member responses",
+            assumptions=ASSUME_COMMON + ["member cubes of a set are independent spec-emitted "
+                                         "states (the library does not relate their data)"],
+            feature_floor=("weights_differ", "multicube_comparisons"))
+
+    return dict(custom=custom)
+
+
 def c18(tier, seed):
     import session
     return dict(custom=session.run_check)
@@ -645,4 +719,4 @@ def c19(tier, seed):
     return dict(custom=elementref.run_check)
 
 
-PROPS = {"C18": c18, "C19": c19, "C13": c13, "C10": c10, "C20": c20, "C05": c05, "C08": c08, "C07": c07, "C09": c09, "C15": c15, "C16": c16, "C17": c17, "C14": c14, "C12": c12, "C01": c01, "C02": c02, "C03": c03, "C04": c04, "C11": c11}
+PROPS = {"C06": c06, "C18": c18, "C19": c19, "C13": c13, "C10": c10, "C20": c20, "C05": c05, "C08": c08, "C07": c07, "C09": c09, "C15": c15, "C16": c16, "C17": c17, "C14": c14, "C12": c12, "C01": c01, "C02": c02, "C03": c03, "C04": c04, "C11": c11}
